@@ -367,7 +367,14 @@ class Handler(Contract):
                 return out
             return out + self.forwarding(it, r, path, what)
         if isinstance(rs, dict):
-            return self.forwarding(it, r, path, what) + self.unit_post(it, r, rs, what)
+            cls_post = []
+            if N.is_unyt_array(r):
+                isq = r.cls.name == "unyt_quantity"
+                cls_post = [("C16: %s of shape () is a unyt_quantity" % what,
+                             z3.Implies(to_z3(N.arr_scalar(r)), z3.BoolVal(isq))),
+                            ("C16: %s with more than one element is not a unyt_quantity" % what,
+                             z3.Implies(to_z3(N.arr_size(r)) > 1, z3.BoolVal(not isq)))]
+            return self.forwarding(it, r, path, what) + self.unit_post(it, r, rs, what) + cls_post
         raise Unsupported("result spec %r" % (rs,))
 
     def result_spec(self):
